@@ -20,6 +20,7 @@ import (
 	"path/filepath"
 	"sort"
 	"strings"
+	"sync/atomic"
 
 	"github.com/quay/zlog"
 	"github.com/rs/zerolog"
@@ -76,6 +77,16 @@ type harness struct {
 	rnd *hx.Rand
 
 	tarfsAllocMax uint64
+	unclassified  atomic.Int64
+}
+
+// fail reports a failure of the property statement on the implementation and
+// keeps count of the unclassified ones.
+func (h *harness) fail(class, witness string) {
+	if class == "" {
+		h.unclassified.Add(1)
+	}
+	h.r.Fail(class, witness)
 }
 
 // quiet silences the library's logging (malformed inputs make it chatty).
@@ -96,12 +107,17 @@ func Run(cfg hx.Config) error {
 		"(truncation at structural boundaries, field-targeted edits of sizes, counts, offsets, types, magics, page links; byte flips; splices). " +
 		"An op is non-trivial when the real reader got past its first validity check (for tar: read at least two blocks or reported a segment). " +
 		"Search half: layers assembled from 1-4 generated files at the paths the built-in scanners read (dpkg, apk, rpm bdb/ndb/sqlite, python, nodejs, ruby, jars incl. nested and lying zip headers, Go executables, os-release family, content manifests, Dockerfiles, whiteouts), each file well-formed or mutated, plus mutated tar streams and hand-built tar oddities (link loops, colliding names, huge sizes, PAX records); Layer.Init and each of the 23 scanners is one evaluation, non-trivial when the scanner returned items or an error."
+	// The search runs first: its observations come from child processes, so
+	// nothing the implementation does there can take the harness down. When it
+	// already has a concrete unclassified failure, the in-process part (which a
+	// fatal error of the implementation would kill, losing that witness) is skipped.
+	h.searchStream()
+	if n := h.unclassified.Load(); n > 0 {
+		r.Notes["in_process_streams"] = fmt.Sprintf("skipped: the search reported %d unclassified failure(s)", n)
+		return nil
+	}
 	h.corpus()
 	h.knownWitnesses()
-	// The search runs before the in-process streams: its observations come from
-	// child processes, so nothing the implementation does there can take the
-	// harness down before they are recorded.
-	h.searchStream()
 	h.pnumStream()
 	h.segStream()
 	h.rpmHdrStream()
@@ -178,7 +194,7 @@ func (h *harness) opPnum(b []byte) {
 		return fmt.Sprintf("ok %d", v)
 	})
 	if out == "panic" {
-		h.r.Fail("", "parseNumber-panic field="+hx.Hex(b))
+		h.fail("", "parseNumber-panic field="+hx.Hex(b))
 	}
 	h.r.Count("pnum:" + strings.Fields(out)[0])
 	h.r.Op("pnum "+hx.Hex(b), out, out != "err")
@@ -222,15 +238,15 @@ func (h *harness) opSeg(b []byte, how string) {
 	// the statement, directly on the implementation
 	switch {
 	case out == "panic":
-		h.r.Fail("", "findSegments-panic tar="+hx.Hex(b))
+		h.fail("", "findSegments-panic tar="+hx.Hex(b))
 	case out == "hang":
-		h.r.Fail("", fmt.Sprintf("findSegments-does-not-terminate (more than %d block reads of a %d-block archive) tar=%s", lr.limit, blocks, hx.Hex(b)))
+		h.fail("", fmt.Sprintf("findSegments-does-not-terminate (more than %d block reads of a %d-block archive) tar=%s", lr.limit, blocks, hx.Hex(b)))
 	case bad != "":
-		h.r.Fail("", "findSegments-segment-outside-archive-or-overlapping "+bad+" tar="+hx.Hex(b))
+		h.fail("", "findSegments-segment-outside-archive-or-overlapping "+bad+" tar="+hx.Hex(b))
 	case lr.reads > 2*blocks+2:
-		h.r.Fail("", fmt.Sprintf("findSegments-reads-not-linear reads=%d blocks=%d tar=%s", lr.reads, blocks, hx.Hex(b)))
+		h.fail("", fmt.Sprintf("findSegments-reads-not-linear reads=%d blocks=%d tar=%s", lr.reads, blocks, hx.Hex(b)))
 	case nseg > blocks:
-		h.r.Fail("", fmt.Sprintf("findSegments-more-segments-than-blocks n=%d blocks=%d tar=%s", nseg, blocks, hx.Hex(b)))
+		h.fail("", fmt.Sprintf("findSegments-more-segments-than-blocks n=%d blocks=%d tar=%s", nseg, blocks, hx.Hex(b)))
 	}
 	for _, m := range strings.Split(how, "+") {
 		h.r.Count("seg:" + m)
